@@ -47,6 +47,25 @@ func TestPropStopNotHeldUp(t *testing.T) {
 		}
 		sc.MicroTaskLimit = rapid.IntRange(2, 8).Draw(t, "limit")
 		sc.Steps = []modsim.Step{{Op: "start"}, {Op: "launch", Mods: names}, {Op: "shutdown"}}
+		if rapid.IntRange(0, 2).Draw(t, "straddle") == 0 {
+			// microtasks are started on the last module while it is not online (not started yet, or stopped by a
+			// management pass) and are still running when it is started: once they have finished, the counts are zero
+			// again and the module's stop is not held up
+			x := names[len(names)-1]
+			sc.Mgmt = true
+			us := rapid.SampledFrom([]int{20000, 60000}).Draw(t, "straddle_us")
+			again := "relaunch"
+			if rapid.Bool().Draw(t, "never_started") {
+				again = "launch"
+				sc.Enabled = names[:len(names)-1]
+				sc.Steps = []modsim.Step{{Op: "start"}, {Op: "launch", Mods: names}}
+			} else {
+				sc.Enabled = names
+				sc.Steps = []modsim.Step{{Op: "start"}, {Op: "launch", Mods: names}, {Op: "disable", Mods: []string{x}}, {Op: "manage"}}
+			}
+			sc.Steps = append(sc.Steps, modsim.Step{Op: "straddle", Mods: []string{x}, US: us}, modsim.Step{Op: "enable", Mods: []string{x}}, modsim.Step{Op: "manage"},
+				modsim.Step{Op: "waitstraddle"}, modsim.Step{Op: again, Mods: []string{x}}, modsim.Step{Op: "shutdown"})
+		}
 		sc.Delays = modsim.GenDelays(t, sc.Modules, 2)
 		res, err := modsim.RunScenario(sc, 300*time.Second)
 		b, _ := json.Marshal(sc)
@@ -59,8 +78,14 @@ func TestPropStopNotHeldUp(t *testing.T) {
 		if v := modsim.CheckC05(sc, res); v != nil {
 			t.Fatalf("C15-3-stop-held-up/%s\nscenario: %s\nevents:%s", v.Error(), b, modsim.RenderEvents(res.Events, 100))
 		}
-		_, running := modsim.C05Stats(sc, res)
-		stats.Case("stop:"+sc.Fingerprint(), running > 0, fmt.Sprintf("stop_with_%d_microtasks_in_flight", min(running, 4)))
+		cls, running := modsim.C05Stats(sc, res)
+		classes := []string{fmt.Sprintf("stop_with_%d_microtasks_in_flight", min(running, 4))}
+		for _, c := range cls {
+			if c == "microtask_running_across_module_start" || c == "module_restarted_and_work_relaunched" {
+				classes = append(classes, c)
+			}
+		}
+		stats.Case("stop:"+sc.Fingerprint(), running > 0, classes...)
 		if running > 0 && stats.WantSample("stop") {
 			stats.Sample("stop", map[string]any{"scenario": sc, "events": modsim.RenderEvents(res.Events, 40)})
 		}
